@@ -111,4 +111,18 @@ RECURSIVE RunLR(_, _)
 RunLR(c, fuel) == IF c.mode # "run" \/ fuel = 0 THEN c ELSE RunLR(LRStep(Feed(c)), fuel - 1)
 
 Parse(startTok, input) == RunLR(InitCfg(startTok, input), 50 * (Len(input) + 4))
+
+(* which production the next step reduces by (-1: a shift, an error or accept) - the decision LRStep takes, without the step *)
+StepRule(c0) ==
+    LET c == Feed(c0)
+        s == St(Top(c)) IN
+    IF c.mode # "run" \/ s.acc THEN -1
+    ELSE IF ~s.la THEN (IF s.def >= 0 THEN s.def ELSE -1)
+    ELSE LET t == c.la.t IN
+         IF Has(s.sh, t) THEN -1 ELSE IF Has(s.rd, t) THEN s.rd[t] ELSE IF s.def >= 0 THEN s.def ELSE -1
+RECURSIVE RunLRRules(_, _, _)
+RunLRRules(c, used, fuel) == IF c.mode # "run" \/ fuel = 0 THEN [c |-> c, used |-> used]
+                             ELSE LET r == StepRule(c) IN RunLRRules(LRStep(Feed(c)), IF r >= 0 THEN used \cup {r} ELSE used, fuel - 1)
+(* the parse together with the set of productions it reduced by: production coverage of an input *)
+ParseRules(startTok, input) == RunLRRules(InitCfg(startTok, input), {}, 50 * (Len(input) + 4))
 =============================================================================
